@@ -740,7 +740,7 @@ pub fn gen_seq(rng: &mut Rng, max_len: usize) -> Case {
     knobs.time = TimeS::Tick;
     knobs.spin = [*rng.pick(&[0u16, 1, 3]), *rng.pick(&[0u16, 1, 3]), *rng.pick(&[0u16, 1, 3])];
     knobs.parallelism = *rng.pick(&[1u8, 4]);
-    Case { cap, ctor, class, mask: rng.next(), knobs, tasks: vec![TaskSpec { handles, ops }], main_keeps_roots: false, lock_harness: false }
+    Case { cap, ctor, class, mask: rng.next(), knobs, tasks: vec![TaskSpec { handles, ops }], main_keeps_roots: false, lock_harness: false, epilogue: vec![] }
 }
 
 
@@ -863,7 +863,7 @@ pub fn enum_seq(index: u64, max_len: u32) -> Case {
     }
     let mut knobs = Knobs::default();
     knobs.spin = [1, 1, 1];
-    Case { cap, ctor: Flavour::Sync, class: Class::SmallDrop, mask: 0x5555_AAAA_1234_F0F0 ^ index, knobs, tasks: vec![TaskSpec { handles, ops }], main_keeps_roots: false, lock_harness: false }
+    Case { cap, ctor: Flavour::Sync, class: Class::SmallDrop, mask: 0x5555_AAAA_1234_F0F0 ^ index, knobs, tasks: vec![TaskSpec { handles, ops }], main_keeps_roots: false, lock_harness: false, epilogue: vec![] }
 }
 
 fn sm_borrowed(ops: &[Op], h: u8) -> bool {
